@@ -26,6 +26,11 @@ def classify(line):
     return "<bad"
 
 
+# roots whose search ends by itself: mate in one, mate in two, checkmated, stalemated
+SELF_ENDING = ["6k1/5ppp/8/8/8/8/5PPP/3R2K1 w - - 0 1", "r5k1/5ppp/8/8/8/8/5PPP/3RR1K1 w - - 0 1", "R5k1/5ppp/8/8/8/8/5PPP/6K1 b - - 0 1",
+               "7k/5Q2/6K1/8/8/8/8/8 b - - 0 1", "k7/8/1K6/8/8/8/8/7R w - - 0 1"]
+
+
 def gen_script(rng, fens, games):
     """list of (command line, token for the acceptor, delay mode)"""
     if rng.random() < 0.12:
@@ -55,6 +60,16 @@ def gen_script(rng, fens, games):
                 sc.append(("stop", ">stop", "none"))
             else:
                 sc.append((line, ">go", "best"))
+        if rng.random() < 0.5:
+            # numbers that do not fit an int: the limit is ignored or clamped, never fatal; the search is ended by `stop`
+            sc.append((f"go {rng.choice(['nodes', 'depth', 'movetime', 'wtime', 'mate', 'movestogo'])} {rng.choice([5000000000, 99999999999, -99999999999, 2147483648])}", ">go", "short"))
+            sc.append(("stop", ">stop", "none")); sc.append(("isready", ">isready", "sync"))
+        if rng.random() < 0.6:
+            # a ponder search that ends by itself (mated / stalemated root, forced mate) holds its result; `ponderhit` must release it at once
+            sc.append((f"position fen {rng.choice(SELF_ENDING)}", ">other", "none"))
+            sc.append((f"go ponder wtime {rng.choice([300, 2000])} btime {rng.choice([300, 2000])}", ">goP", "short"))
+            sc.append(("isready", ">isready", "sync"))
+            sc.append(("ponderhit", ">ponderhit", "best"))
         sc.append(("quit", ">quit", "none"))
         return sc
     if rng.random() < 0.15:
@@ -85,10 +100,11 @@ def gen_script(rng, fens, games):
             if spec == "bool": v = rng.choice(["true", "false", "maybe"])
             else:
                 lo, hi = spec
-                v = rng.choice([lo, hi, rng.randrange(lo, hi + 1), lo - 1, hi + 1, "abc"])
-                if k == "Threads" and isinstance(v, int) and v > 8: v = 8
-                if k == "Hash" and isinstance(v, int) and v > 64: v = 64
+                v = rng.choice([lo, hi, rng.randrange(lo, hi + 1), lo - 1, hi + 1, "abc", 99999999999, -99999999999, "1e400"])
+                if k == "Threads" and isinstance(v, int) and 8 < v < 10**9: v = 8
+                if k == "Hash" and isinstance(v, int) and 64 < v < 10**9: v = 64
             if k == "MaxNPS" and isinstance(v, int) and 0 < v < 1000: v = 1000   # tiny MaxNPS: known finding C06-maxnps-sleep
+            if k == "MaxNPS" and v == "1e400": v = "abc"                          # std::stoi reads "1e400" as 1: the same tiny-MaxNPS case
             if k in ("MaxNPS", "Strength", "UCI_LimitStrength"): throttled = True
             sc.append((f"setoption name {k} value {v}", ">other", "none"))
         elif x < 0.33: sc.append(("setoption name Clear Hash", ">other", "none"))
